@@ -143,17 +143,22 @@ pub enum Fault {
     Oversize { k: usize, extra: usize },
     /// (C17 seam clause) read k delivers bytes with a bytes-per-sample that disagrees with the width.
     WrongBps { k: usize, bps: usize },
+    /// (C17, multi-thread slice) the entry point is called with this block size (outside 32..=32767)
+    /// while the source keeps delivering blocks of the workload's size.
+    BadBlockSize { block: u64 },
 }
 
 impl Fault {
     pub fn k(&self) -> usize {
         match self {
             Self::ReadError { k, .. } | Self::OutOfRange { k, .. } | Self::Oversize { k, .. } | Self::WrongBps { k, .. } => *k,
+            Self::BadBlockSize { .. } => 0,
         }
     }
     pub fn set_k(&mut self, nk: usize) {
         match self {
             Self::ReadError { k, .. } | Self::OutOfRange { k, .. } | Self::Oversize { k, .. } | Self::WrongBps { k, .. } => *k = nk,
+            Self::BadBlockSize { .. } => {}
         }
     }
     pub fn kind_name(&self) -> &'static str {
@@ -163,6 +168,7 @@ impl Fault {
             Self::OutOfRange { .. } => "out_of_range",
             Self::Oversize { .. } => "oversize_fill",
             Self::WrongBps { .. } => "wrong_bytes_per_sample",
+            Self::BadBlockSize { .. } => "bad_block_size",
         }
     }
 }
@@ -433,6 +439,19 @@ pub fn gen(purpose: Purpose, tier: Tier, seed: u64, index: u64) -> Workload {
             w.cfg.rice_max = 14;
         }
     }
+    // Wide (20/24-bit) full-scale noise or alternation under predictive coding makes the library spend
+    // tens of seconds and hundreds of megabytes per encode (giant residuals; the business of C09/C13, not
+    // of a scheduling property). Such content is kept for verbatim/constant-only configurations and
+    // replaced by quieter noise / a sine otherwise.
+    if w.bits >= 20 && (w.cfg.use_fixed || w.cfg.use_lpc) {
+        for k in &mut w.sig_kinds {
+            *k = match *k {
+                4 => 10,
+                6 => 5,
+                other => other,
+            };
+        }
+    }
     // machine-parallelism classes run 16+ workers: keep those inputs small
     if w.workers.is_none() && !matches!(w.env_workers.as_deref(), Some("1" | "2" | "3" | "4")) {
         w.nfull = w.nfull.min(6);
@@ -467,9 +486,12 @@ pub fn gen(purpose: Purpose, tier: Tier, seed: u64, index: u64) -> Workload {
             }
             let nreads = w.plan_reads().len();
             let k = r.below(nreads);
-            let f = match r.below(3) {
-                0 => gen_out_of_range(&mut r, &w, k),
-                1 => Fault::Oversize {
+            let f = match r.below(7) {
+                6 => Fault::BadBlockSize {
+                    block: *r.pick(&[0u64, 1, 31, 32768, 40000, 65535, 65536, (1 << 16) + 64, (1 << 32) + 64, u64::MAX]),
+                },
+                0 | 3 => gen_out_of_range(&mut r, &w, k),
+                1 | 4 => Fault::Oversize {
                     k,
                     extra: *r.pick(&[1usize, 2, 5, w.block, w.block * (w.channels - 1).max(1)]),
                 },
@@ -551,6 +573,15 @@ pub fn tame(w: &mut Workload) {
                     *k = 3;
                 }
             }
+        }
+    }
+    if w.bits >= 20 && (w.cfg.use_fixed || w.cfg.use_lpc) {
+        for k in &mut w.sig_kinds {
+            *k = match *k {
+                4 => 10,
+                6 => 5,
+                other => other,
+            };
         }
     }
     while w.block * w.channels * (w.nfull + 1) > 6000 && w.nfull > 1 {
